@@ -283,7 +283,8 @@ _ADDED = {
            "to a second frontend.",
     "C03": " Pool saving also runs on a cooperative scheduler (seeded random / PCT order of the queued chunk writes); forked "
            "savers are driven the way a ParallelSourcePlugin drives them; chunk files of ~1 MB are loaded concurrently by "
-           "eight threads (all reads in flight at once) for every compressor.",
+           "eight threads (all reads in flight at once) for every compressor; a failed-write family makes the j-th chunk "
+           "write raise (every j, serial and pool): data then offered as complete must have all its files and rows.",
     "C04": " An inlined-savers family injects the fault inside the pool worker process that writes the chunk (write, rename, "
            "per-chunk metadata; exception or death of the worker) and at every parent-side event; the state oracle also "
            "looks at the directory through a read-only frontend.",
@@ -299,6 +300,8 @@ _ADDED = {
     "C11": " Strata: multi-output plugins with per-output policies x every request modifier; forbid_creation_of as tuple / list "
            "/ string with nested type names; frontends with take_only and exclude; a request with a per-call option followed by "
            "a plain one on the same context; inlined savers with one to three writable frontends.",
+    "C12": " Violation kinds include an empty result of another dtype (bare and wrapped), array fields of another shape, "
+           "and a chunk of the sibling output.",
     "C13": " Configurations with a worker pool (lazy allowed and forbidden) and with the source loaded from storage (chunk "
            "reads of the backend are counted) are included; lazy mailboxes with several subscribers get ten PCT schedules.",
     "C14": " Run names whose lexicographic order differs from their time order, definition lists in shuffled order, a two-input "
